@@ -20,7 +20,7 @@ OUTSIDE = 'documents with several faults; faults inside deeper nesting than the 
 ASSUMPTIONS = ['fault offset = offset of the opening delimiter / macro named in the property; '
                'scanner re-basing and stderr stub as for C01']
 
-MARK = 'LATEXXXERROR'
+from vf.docs import MARK
 # name: (source, options, fault offset, words that must survive after the mark)
 FAULTS = {
     'dollar': ('A $x Keep', {}, 2, []),
